@@ -1640,6 +1640,43 @@ Proof.
   apply Forall_forall. intros o _. destruct o; exact I.
 Qed.
 
+(** with candidates that end at or after the start of their segment: over all
+    histories the only undefined operation the modelled core can still reach is
+    std::string::substr with pos > size (ErrSubstr) – no null dereference, no
+    invalid page range, and CalculateSegmentation always finishes within its
+    |input| + 1 rounds (no ErrFuel) *)
+Definition obs_only_substr (o : obs) : Prop :=
+  match o with ObsCrash ErrSubstr | Obs _ _ => True | ObsCrash _ => False end.
+
+Theorem only_substr_can_fail (cfg : config) (translate : bytes -> seginfo -> list cand) :
+  (1 <= cf_page_size cfg)%Z ->
+  (forall i s, (Z.of_nat (length (translate i s)) + cf_page_size cfg < 2147483648)%Z) ->
+  cf_del_checked cfg = true ->
+  (forall i s c, In c (translate i s) -> si_start s <= c_end c) ->
+  forall ops, Forall obs_only_substr (snd (run cfg translate ops)).
+Proof.
+  intros Hps Hlen Hdel Hce ops.
+  set (MPg := fun (st : nat) (m : menu) => forall c, In c m -> st <= c_end c).
+  assert (Hops : Forall (op_ok (fun _ => True)) ops) by (apply Forall_forall; intros o _; destruct o; exact I).
+  assert (Hrun : forall l s, sinv cfg MPg (fun _ => True) True s ->
+                 Forall (op_ok (fun _ => True)) l -> Forall obs_only_substr (snd (run_from cfg translate s l))).
+  { induction l as [|o r IH]; intros s H Hl; [constructor|]. cbn [run_from]. inversion Hl as [|? ? Ho Hr]; subst.
+    assert (Hi : sinv cfg MPg (fun _ => True) True (fst (step cfg translate s o))).
+    { eapply step_inv; eauto; try tauto. intros i sg _ c Hc. apply (Hce i sg c Hc). }
+    assert (Hob : obs_only_substr (snd (step cfg translate s o))).
+    { assert (He : forall x, sinv cfg MPg (fun _ => True) True x -> forall e, cx_err (st_ctx x) = Some e -> e = ErrSubstr).
+      { intros x ((_ & _ & _ & _ & Hok & Hg) & _) e Hx. destruct (Hg I) as (_ & Hnf). rewrite Hx in Hok, Hnf.
+        destruct e; cbn in Hok; try contradiction; try reflexivity; congruence. }
+      unfold step in *. destruct (cx_err (st_ctx s)) as [e|] eqn:Ee.
+      - cbn [snd]. rewrite (He s H e Ee). exact I.
+      - destruct (exec cfg translate s o) as [s1 r1]. destruct (view_of cfg s1) as [v ve].
+        destruct (cx_err (st_ctx (match ve with Some e => st_with_ctx s1 (ctx_fail (st_ctx s1) e) | None => s1 end))) as [e|] eqn:E2;
+          cbn [fst snd] in *; [|exact I]. rewrite (He _ Hi e E2). exact I. }
+    destruct (step cfg translate s o) as [s1 ob]. cbn [fst snd] in *. specialize (IH s1 Hi Hr).
+    destruct (run_from cfg translate s1 r) as [s2 obs]. constructor; assumption. }
+  apply Hrun; [|exact Hops]. eapply init_inv; eauto; tauto.
+Qed.
+
 Definition op_ascii (o : op) : Prop := match o with OpSetInput v => all_ascii v | _ => True end.
 
 Lemma ascii_key z : (32 <= z < 127)%Z -> all_ascii [byte_of_N (Z.to_N z)].
